@@ -41,6 +41,14 @@ UNITS = {
         'template': 'kmer_minimiser.vrs', 'backend': 'verus',
         'serves': ['C18', 'C16'],
     },
+    'posmaps': {
+        'template': 'posmaps.vrs', 'backend': 'verus',
+        'serves': ['C03', 'C14'],
+    },
+    'header': {
+        'template': 'header.vrs', 'backend': 'verus',
+        'serves': ['C03', 'C12', 'C13'],
+    },
     'n2k': {
         'template': 'n2k.vrs', 'backend': 'verus',
         'serves': ['C02', 'C03'],
@@ -86,6 +94,19 @@ PROPS = {
         'level_note': 'trusted: Verus/Z3, vstd, assumed std contracts VecDeque::get, cmp::min, R8 stub verif_clone_from (Vec<u64>::clone_from copies); extractor rules R1 R3 R8. '
                       'Stage (ii) clauses (equality of runs with the plain iterator as values, conservation of w-mers) are listed under not_reached until discharged.',
         'not_reached': [],
+    },
+    'C03': {
+        'units': ['posmaps', 'header'], 'deps': ['kmer_gen', 'n2k'], 'replay': 'c03',
+        'level_text': 'Verus proves for the verbatim kmer_pos_maps and every k in 1..=15 that (pos_map, pos_kmer, count) is the order isomorphism between [0,count) '
+                      'and the canonical k-mers (x <= revcomp(x)): canonical codes map to indices below count and back, the index->code map is strictly increasing '
+                      '(hence index == rank in increasing code order), non-canonical entries are 0 and the map has no other key; and that the three header builders '
+                      '(oligo.rs get_header, pybindings get_header, the table in OligoCgrComputer::new) return text_of(pos_kmer[i]) for every column i.',
+        'level_note': 'trusted: Verus/Z3, vstd HashMap/HashSet model; assumed std contracts u64::pow (4^e), slice::sort (sorted permutation); R8 stubs Vec::from_iter(HashSet) '
+                      '(duplicate-free enumeration), HashMap::iter (visits every entry once), chars().rev().collect(); imported contracts of rev_comp and numeric_to_kmer '
+                      '(proved in units kmer_gen, n2k, run as dependencies). The closed-form column count is a statement about the canonical set alone; it is not yet '
+                      'discharged deductively (listed under not_reached). join(delim) of the header vector is std.',
+        'not_reached': ['closed form count == (4^k + 4^(k/2))/2 (even k) / 4^k/2 (odd k): cardinality of the canonical set, independent of the code once the bijection contract holds',
+                        'String::join with the delimiter and the write of the header line (std)'],
     },
 }
 
